@@ -154,12 +154,32 @@ def accOkStrict (en : Entry) (e : Ev) : Bool :=
 def locksetOk (t : List Entry) : Bool := t.all (fun en => en.events.all (accOk en))
 def locksetOkStrict (t : List Entry) : Bool := t.all (fun en => en.events.all (accOkStrict en))
 
-/-- every write of a field that has a designated mutex and is not benign happens under that mutex,
-    by the daemon thread, or on a fresh object (no exception for the known-unprotected reads) -/
+/-- fields whose writers are the daemon thread alone whenever the daemon thread writes them at all
+    (no designated mutex needed for those writes): the epoll ready list, `thread_joined` (set and
+    read by the joining daemon thread only), and `urh->clean_ready`, which the daemon thread sets
+    only while it forwards upgraded TLS data itself (`daemon->urh_head`, unused in
+    thread-per-connection mode, where the connection's own thread sets it — see `freshObject`) -/
+def daemonOnlyField (f : Field) : Bool :=
+  f == .eready_list || f == .eready_links || f == .c_thread_joined || f == .urh_clean_ready
+
+/-- `new_connections_list_process_` detaches the whole hand-over list under the mutex and then
+    unlinks its elements from the *local* list -/
+def detachedList (name : String) (f : Field) : Bool :=
+  name == "new_connections_list_process_" && f == .conn_links
+
+/-- **writes need the mutex itself**, not merely the daemon-thread role: in thread-per-connection
+    mode the connection threads touch the same lists under the mutex, so an unlocked write by
+    the daemon thread would race with them.  Allowed without the mutex: benign fields,
+    daemon-only fields written by the confined daemon thread, fresh objects, the detached local
+    list, and (known finding F18b) `urh->was_closed`. -/
+def writeOk (en : Entry) (e : Ev) (f : Field) : Bool :=
+  benign f || underDesignated en e f || freshObject en.name f || detachedList en.name f
+    || (daemonOnlyField f && confined en e f) || en.role == Role.startup || f == .urh_was_closed
+
 def writesOk (t : List Entry) : Bool :=
   t.all (fun en => en.events.all (fun e =>
     match e.kind with
-    | .acc f true => protectedAcc en e f || f == .urh_was_closed
+    | .acc f true => writeOk en e f
     | _ => true))
 
 /-! ## application callbacks under a lock -/
